@@ -34,7 +34,7 @@ CONSTANTS Procs,      \* process ids (naturals 1..P)
           MaxN,       \* size of the node pool
           Menu,       \* set of operations a process may be given
           InitTrees,  \* set of initial contents: sets of <<path, value>>
-          Mutant      \* "none" | "no_recheck" | "early_release" | "visitor_value" | "delete_no_node_locks" | "terminal_check_unlocked"
+          Mutant      \* "none" | "no_recheck" | "early_release" | "visitor_value" | "delete_no_node_locks" | "terminal_check_unlocked" | "delete_empty_check_unlocked"
 
 Names  == {"a", "b", "c"}
 Nodes  == 1..MaxN
@@ -323,7 +323,19 @@ HandleWrite(i) ==
 (* Delete(path): root write lock, then every node on the way and every     *)
 (* node inspected is locked (unless the mutant says otherwise)             *)
 
-DelAnn(i)   == P(i).op = "del" /\ P(i).ph = "start"   /\ Announce(i, Root, "d_grant")
+\* mutant "delete_empty_check_unlocked": "nothing to delete in an empty tree" is decided under the read lock, before the
+\* write lock is taken, and not looked at again (seeded change C10-5)
+DelPre(i) ==
+    /\ P(i).op = "del" /\ P(i).ph = "start" /\ Mutant = "delete_empty_check_unlocked"
+    /\ CanRLock(Root)
+    /\ raced' = (raced \/ ReadRace(i, Root))
+    /\ IF kind[Root] = "nil"
+       THEN /\ ReleaseAll(i) /\ Set(i, [P(i) EXCEPT !.ph = "done", !.held = {}, !.res = "none"])
+       ELSE /\ Set(i, [P(i) EXCEPT !.ph = "d_ann"]) /\ UNCHANGED <<rd, wr, ann>>
+    /\ UNCHANGED <<kind, val, kids, abs>>
+DelAnn(i)   == /\ P(i).op = "del"
+               /\ IF Mutant = "delete_empty_check_unlocked" THEN P(i).ph = "d_ann" ELSE P(i).ph = "start"
+               /\ Announce(i, Root, "d_grant")
 DelGrant(i) == P(i).op = "del" /\ P(i).ph = "d_grant" /\ Grant(i, Root, "d_walk")
 
 \* the nodes still to lock and inspect: the node addressed and its descendants, top down
@@ -335,7 +347,9 @@ DelWalk(i) ==
     /\ P(i).op = "del" /\ P(i).ph = "d_walk"
     /\ raced' = (raced \/ ReadRace(i, n))
     /\ IF kind[n] = "nil"
-       THEN Finish(i, "none") /\ UNCHANGED <<kind, val, kids, abs>>
+       THEN \* an empty tree: nothing to delete - the mutant, past its check, takes the empty root for a leaf and reports it
+            Finish(i, IF Mutant = "delete_empty_check_unlocked" /\ n = Root /\ P(i).path = <<>> THEN "phantom" ELSE "none")
+            /\ UNCHANGED <<kind, val, kids, abs>>
        ELSE IF P(i).rest = <<>>
        THEN \* the node addressed: inspect its descendants one by one
             /\ Set(i, [P(i) EXCEPT !.todo = SeqOfSet(Desc(n)), !.ph = "d_inspect"])
@@ -401,7 +415,7 @@ Step(i) ==
     \/ AddTCheck(i) \/ AddTAnn(i) \/ AddTGrant(i) \/ AddTWrite(i)
     \/ ReadStep(i) \/ QueryValue(i) \/ QueryRet(i)
     \/ HandleValue(i) \/ HandleAnn(i) \/ HandleGrant(i) \/ HandleWrite(i)
-    \/ DelAnn(i) \/ DelGrant(i) \/ DelWalk(i) \/ DelNAnn(i) \/ DelNGrant(i)
+    \/ DelPre(i) \/ DelAnn(i) \/ DelGrant(i) \/ DelWalk(i) \/ DelNAnn(i) \/ DelNGrant(i)
     \/ DelInspect(i) \/ DelIGrant(i) \/ DelDetach(i)
 
 AllDone == \A i \in Procs : pr[i].ph = "done"
@@ -421,6 +435,9 @@ Refines == ~DeleteInFlight => Reach = abs
 PrefixFreeAbs == \A x, y \in abs : x # y => ~IsPrefix(x[1], y[1])
 
 NoRace == ~raced
+
+\* a delete reports only what it removed (nothing, in a tree that is empty when it takes effect)
+NoPhantom == \A i \in Procs : pr[i].res # "phantom"
 
 \* a writer holds the lock alone
 Exclusive == \A n \in Nodes : wr[n] # 0 => \A j \in Procs : j # wr[n] => rd[n][j] = 0
